@@ -285,37 +285,45 @@ Proof.
   - change (join_nl (p :: q :: ps)) with (p ++ 10 :: join_nl (q :: ps)). rewrite IH. reflexivity.
 Qed.
 
-Definition considered (fs : files) (names : list bytes) : list bytes :=
-  filter (fun n => match f_tmp fs n with Some [] => false | _ => true end) names.
+(* the cvs logs that exist and are not empty *)
+Definition present (fs : files) (names : list bytes) : list bytes :=
+  flat_map (fun n => match f_tmp fs n with Some (c :: b) => [c :: b] | _ => [] end) names.
+
+(* report.c as it is now passes over a cvs log that was never written (/repo da850b3); this line stops
+   compiling when the test goes back to "only an empty file" (D18) *)
+Lemma cvs_switch : cvs_missing_skipped = true.
+Proof. reflexivity. Qed.
 
 Lemma cvs_loop_spec fs names k out :
-  cvs_loop fs names k out =
-    let '(contents, err) := readable_prefix fs (considered fs names) in
-    let parts := map spec_format contents in
-    (out ++ (if Nat.ltb 0 k then concat (map (cons 10) parts) else join_nl parts) ++
-       (if err && (Nat.ltb 0 k || nonnil contents) then [10] else []), err).
+  cvs_loop_with true fs names k out =
+    let parts := map spec_format (present fs names) in
+    (out ++ (if Nat.ltb 0 k then concat (map (cons 10) parts) else join_nl parts), false).
 Proof.
   revert k out; induction names as [|n ns IH]; intros k out.
-  - cbn [cvs_loop considered filter readable_prefix map nonnil concat join_nl andb].
-    destruct (Nat.ltb 0 k); rewrite !app_nil_r; reflexivity.
-  - cbn [cvs_loop considered filter]. fold (considered fs ns).
-    destruct (f_tmp fs n) as [[|x b]|] eqn:En.
+  - cbn [cvs_loop_with present flat_map map concat join_nl]. destruct (Nat.ltb 0 k); rewrite app_nil_r; reflexivity.
+  - cbn [cvs_loop_with present flat_map]. fold (present fs ns).
+    destruct (f_tmp fs n) as [[|x b]|] eqn:En; cbn [app].
     + apply IH.
-    + cbn [readable_prefix]. rewrite En. rewrite IH.
-      destruct (readable_prefix fs (considered fs ns)) as [contents err].
-      cbn [map nonnil]. rewrite format_file_spec. change (Nat.ltb 0 (S k)) with true. cbn [orb].
-      rewrite !orb_true_r, !andb_true_r.
+    + rewrite IH. cbn [map]. rewrite format_file_spec. change (Nat.ltb 0 (S k)) with true.
       destruct (Nat.ltb 0 k).
       * cbn [concat map]. rewrite <- !app_assoc. reflexivity.
       * rewrite join_nl_cons, <- !app_assoc. reflexivity.
-    + cbn [readable_prefix]. rewrite En. cbn [map nonnil concat join_nl orb andb].
-      rewrite orb_false_r. destruct (Nat.ltb 0 k); cbn; rewrite ?app_nil_r; reflexivity.
+    + apply IH.
 Qed.
 
 Lemma cvs_log_spec m fs : cvs_log m fs = spec_cvs m fs.
 Proof.
-  unfold cvs_log, spec_cvs. rewrite cvs_loop_spec, cvs_names_spec. unfold considered.
-  destruct (readable_prefix fs _) as [contents err]. reflexivity.
+  unfold cvs_log, cvs_loop, spec_cvs. rewrite cvs_switch, cvs_loop_spec, cvs_names_spec. reflexivity.
+Qed.
+
+(* HISTORICAL PIN: the loop as shipped before da850b3 stopped at the first cvs log that did not exist and the
+   report failed with it (D18); vacuous now that the switch is [true] *)
+Lemma cvs_missing_refuted :
+  cvs_missing_skipped = false ->
+  exists m fs, snd (cvs_log m fs) = true /\ snd (spec_cvs m fs) = false.
+Proof.
+  intros H. exists Ports, (mkfiles (fun _ => None) (fun _ => None) FAbsent None None None None (fun _ _ => None)).
+  unfold cvs_log, cvs_loop. rewrite H. split; reflexivity.
 Qed.
 
 (* ---- the last lines ----------------------------------------------------------------------------------- *)
